@@ -210,7 +210,7 @@ func (cw *coqWriter) offer(r *runner, kind string, idx int) {
 	// per kind: every stride-th history, up to a quota (quick / thorough)
 	rule := map[string][3]int{ // stride quick, quota quick, quota thorough (stride thorough = 40 x)
 		"corpus": {1, 100, 100}, "replay": {1, 1, 1}, "random": {23, 14, 110}, "random-zone": {17, 4, 40},
-		"grow-gaps": {331, 6, 40}, "d36-zone": {37, 4, 12}, "fixed-groups": {41, 6, 20}, "setenum-mux": {13, 5, 12}, "exh-full": {2003, 6, 30}, "exh-reduced": {3001, 6, 30},
+		"grow-gaps": {331, 6, 40}, "d36-zone": {37, 4, 12}, "fixed-groups": {41, 6, 20}, "setenum-mux": {13, 5, 12}, "minsize-mux": {17, 5, 12}, "exh-full": {2003, 6, 30}, "exh-reduced": {3001, 6, 30},
 	}[kind]
 	if rule[0] == 0 {
 		return
